@@ -515,3 +515,431 @@ package cluster
 //@ ensures r1 == nil ==> forall(j, 0, r0.PeerIdx, res(0, d.Peers())[j].ID != pID)
 //@ loop 1 invariant forall(j, 0, $i, peers[j].ID != pID)
 
+
+// ---- JSON formatter conversions: every field passes unchanged, element by element ---------------------
+// The JSON structs are what encoding/json reads and writes; Definition/Lock are what is hashed and verified.
+// Tamper evidence needs the two to agree field by field in both directions (no normalisation, no reordering).
+
+//@ pure time.Unix
+
+//@ spec func opSame2(o Operator, j operatorJSONv1x2orLater) bool = o.Address == j.Address && o.ENR == j.ENR && o.ConfigSignature == j.ConfigSignature && o.ENRSignature == j.ENRSignature
+//@ spec func opSame1(o Operator, j operatorJSONv1x1) bool = o.Address == j.Address && o.ENR == j.ENR && o.ConfigSignature == j.ConfigSignature && o.ENRSignature == j.ENRSignature
+
+//@ func operatorsFromV1x2orLater
+//@ props C12
+//@ ensures len(result) == len(operators) && forall(i, 0, len(operators), opSame2(result[i], operators[i]))
+//@ loop 1 invariant len(resp) == $i && forall(j, 0, $i, opSame2(resp[j], operators[j]))
+
+//@ func operatorsToV1x2orLater
+//@ props C12
+//@ ensures len(result) == len(operators) && forall(i, 0, len(operators), opSame2(operators[i], result[i]))
+//@ loop 1 invariant len(resp) == $i && forall(j, 0, $i, opSame2(operators[j], resp[j]))
+
+//@ func operatorsFromV1x1
+//@ props C12
+//@ ensures r1 == nil ==> len(r0) == len(operators) && forall(i, 0, len(operators), opSame1(r0[i], operators[i]) && operators[i].Nonce == 0)
+//@ ensures r1 != nil ==> exists(i, 0, len(operators), operators[i].Nonce != 0)
+//@ loop 1 invariant len(resp) == $i && forall(j, 0, $i, opSame1(resp[j], operators[j]) && operators[j].Nonce == 0)
+
+//@ func operatorsToV1x1
+//@ props C12
+//@ ensures len(result) == len(operators) && forall(i, 0, len(operators), opSame1(operators[i], result[i]) && result[i].Nonce == 0)
+//@ loop 1 invariant len(resp) == $i && forall(j, 0, $i, opSame1(operators[j], resp[j]) && resp[j].Nonce == 0)
+
+//@ func validatorAddressesToJSON
+//@ props C12
+//@ ensures len(result) == len(vaddrs) && forall(i, 0, len(vaddrs), result[i].FeeRecipientAddress == vaddrs[i].FeeRecipientAddress && result[i].WithdrawalAddress == vaddrs[i].WithdrawalAddress)
+//@ loop 1 invariant len(resp) == $i && forall(j, 0, $i, resp[j].FeeRecipientAddress == vaddrs[j].FeeRecipientAddress && resp[j].WithdrawalAddress == vaddrs[j].WithdrawalAddress)
+
+//@ func validatorAddressesFromJSON
+//@ props C12
+//@ ensures len(result) == len(vaddrs) && forall(i, 0, len(vaddrs), result[i].FeeRecipientAddress == vaddrs[i].FeeRecipientAddress && result[i].WithdrawalAddress == vaddrs[i].WithdrawalAddress)
+//@ loop 1 invariant len(resp) == $i && forall(j, 0, $i, resp[j].FeeRecipientAddress == vaddrs[j].FeeRecipientAddress && resp[j].WithdrawalAddress == vaddrs[j].WithdrawalAddress)
+
+//@ spec func ddSame(d DepositData, j depositDataJSON) bool = d.PubKey == j.PubKey && d.WithdrawalCredentials == j.WithdrawalCredentials && d.Amount == j.Amount && d.Signature == j.Signature
+
+//@ func depositDataToJSON
+//@ props C12
+//@ pure
+//@ ensures ddSame(d, result)
+
+//@ func depositDataFromJSON
+//@ props C12
+//@ pure
+//@ ensures ddSame(result, d)
+
+//@ func firstDepositDataOrDefault
+//@ props C12
+//@ pure
+//@ ensures len(dd) > 0 ==> result == dd[0]
+//@ ensures len(dd) == 0 ==> result == zero(DepositData)
+
+//@ func depositDataArrayToJSON
+//@ props C12
+//@ ensures isnil(result) == isnil(dd) && len(result) == len(dd) && forall(i, 0, len(dd), ddSame(dd[i], result[i]))
+//@ loop 1 invariant len(array) == len(dd) && !isnil(array) && !isnil(dd) && forall(j, 0, $i, ddSame(dd[j], array[j]))
+
+//@ func depositDataArrayFromJSON
+//@ props C12
+//@ ensures isnil(result) == isnil(dd) && len(result) == len(dd) && forall(i, 0, len(dd), ddSame(result[i], dd[i]))
+//@ loop 1 invariant len(array) == len(dd) && !isnil(array) && !isnil(dd) && forall(j, 0, $i, ddSame(array[j], dd[j]))
+
+//@ func registrationToJSON
+//@ props C12
+//@ pure
+//@ ensures result.Message.FeeRecipient == b.Message.FeeRecipient && result.Message.GasLimit == b.Message.GasLimit && result.Message.PubKey == b.Message.PubKey && result.Signature == b.Signature
+//@ ensures result.Message.Timestamp == int(b.Message.Timestamp.Unix())
+
+//@ func registrationFromJSON
+//@ props C12
+//@ pure
+//@ ensures result.Message.FeeRecipient == b.Message.FeeRecipient && result.Message.GasLimit == b.Message.GasLimit && result.Message.PubKey == b.Message.PubKey && result.Signature == b.Signature
+//@ ensures result.Message.Timestamp == time.Unix(int64(b.Message.Timestamp), 0)
+
+//@ spec func sharesSame(a [][]byte, b []ethHex) bool = len(a) == len(b) && forall(k, 0, len(a), a[k] == b[k])
+
+//@ func byteSliceArrayToEthHex
+//@ props C12
+//@ ensures sharesSame(data, result)
+//@ loop 1 invariant len(ret) == $i && forall(k, 0, $i, ret[k] == data[k])
+
+//@ func distValidatorsFromV1x1
+//@ props C12
+//@ ensures len(result) == len(distValidators) && forall(i, 0, len(distValidators), result[i].PubKey == distValidators[i].PubKey && result[i].PubShares == distValidators[i].PubShares)
+//@ loop 1 invariant len(resp) == $i && forall(j, 0, $i, resp[j].PubKey == distValidators[j].PubKey && resp[j].PubShares == distValidators[j].PubShares)
+
+//@ func distValidatorsToV1x1
+//@ props C12
+//@ ensures len(result) == len(distValidators) && forall(i, 0, len(distValidators), result[i].PubKey == distValidators[i].PubKey && result[i].PubShares == distValidators[i].PubShares)
+//@ loop 1 invariant len(resp) == $i && forall(j, 0, $i, resp[j].PubKey == distValidators[j].PubKey && resp[j].PubShares == distValidators[j].PubShares)
+
+//@ func distValidatorsFromV1x2to5
+//@ props C12
+//@ ensures len(result) == len(distValidators) && forall(i, 0, len(distValidators), result[i].PubKey == distValidators[i].PubKey && sharesSame(result[i].PubShares, distValidators[i].PubShares))
+//@ loop 1 invariant len(resp) == $i && forall(j, 0, $i, resp[j].PubKey == distValidators[j].PubKey && sharesSame(resp[j].PubShares, distValidators[j].PubShares))
+//@ loop 2 invariant len(shares) == $i2 && forall(k, 0, $i2, shares[k] == dv.PubShares[k])
+
+//@ func distValidatorsToV1x2to5
+//@ props C12
+//@ ensures len(result) == len(distValidators) && forall(i, 0, len(distValidators), result[i].PubKey == distValidators[i].PubKey && sharesSame(distValidators[i].PubShares, result[i].PubShares))
+//@ loop 1 invariant len(resp) == $i && forall(j, 0, $i, resp[j].PubKey == distValidators[j].PubKey && sharesSame(distValidators[j].PubShares, resp[j].PubShares))
+//@ loop 2 invariant len(shares) == $i2 && forall(k, 0, $i2, shares[k] == dv.PubShares[k])
+
+//@ spec func ddArrSame(a []DepositData, b []depositDataJSON) bool = isnil(a) == isnil(b) && len(a) == len(b) && forall(k, 0, len(a), ddSame(a[k], b[k]))
+
+//@ func distValidatorsFromV1x6
+//@ props C12
+//@ ensures len(result) == len(distValidators) && forall(i, 0, len(distValidators), result[i].PubKey == distValidators[i].PubKey && sharesSame(result[i].PubShares, distValidators[i].PubShares) && len(result[i].PartialDepositData) == 1 && ddSame(result[i].PartialDepositData[0], distValidators[i].DepositData))
+//@ loop 1 invariant len(resp) == $i && forall(j, 0, $i, resp[j].PubKey == distValidators[j].PubKey && sharesSame(resp[j].PubShares, distValidators[j].PubShares) && len(resp[j].PartialDepositData) == 1 && ddSame(resp[j].PartialDepositData[0], distValidators[j].DepositData))
+//@ loop 2 invariant len(shares) == $i2 && forall(k, 0, $i2, shares[k] == dv.PubShares[k])
+
+//@ func distValidatorsToV1x6
+//@ props C12
+//@ ensures len(result) == len(distValidators) && forall(i, 0, len(distValidators), result[i].PubKey == distValidators[i].PubKey && sharesSame(distValidators[i].PubShares, result[i].PubShares) && ddSame(firstDepositDataOrDefault(distValidators[i].PartialDepositData), result[i].DepositData))
+//@ loop 1 invariant len(resp) == $i && forall(j, 0, $i, resp[j].PubKey == distValidators[j].PubKey && sharesSame(distValidators[j].PubShares, resp[j].PubShares) && ddSame(firstDepositDataOrDefault(distValidators[j].PartialDepositData), resp[j].DepositData))
+//@ loop 2 invariant len(shares) == $i2 && forall(k, 0, $i2, shares[k] == dv.PubShares[k])
+
+//@ func distValidatorsFromV1x7
+//@ props C12
+//@ ensures len(result) == len(distValidators) && forall(i, 0, len(distValidators), result[i].PubKey == distValidators[i].PubKey && sharesSame(result[i].PubShares, distValidators[i].PubShares) && len(result[i].PartialDepositData) == 1 && ddSame(result[i].PartialDepositData[0], distValidators[i].DepositData) && result[i].BuilderRegistration == registrationFromJSON(distValidators[i].BuilderRegistration))
+//@ loop 1 invariant len(resp) == $i && forall(j, 0, $i, resp[j].PubKey == distValidators[j].PubKey && sharesSame(resp[j].PubShares, distValidators[j].PubShares) && len(resp[j].PartialDepositData) == 1 && ddSame(resp[j].PartialDepositData[0], distValidators[j].DepositData) && resp[j].BuilderRegistration == registrationFromJSON(distValidators[j].BuilderRegistration))
+//@ loop 2 invariant len(shares) == $i2 && forall(k, 0, $i2, shares[k] == dv.PubShares[k])
+
+//@ func distValidatorsToV1x7
+//@ props C12
+//@ ensures len(result) == len(distValidators) && forall(i, 0, len(distValidators), result[i].PubKey == distValidators[i].PubKey && sharesSame(distValidators[i].PubShares, result[i].PubShares) && ddSame(firstDepositDataOrDefault(distValidators[i].PartialDepositData), result[i].DepositData) && result[i].BuilderRegistration == registrationToJSON(distValidators[i].BuilderRegistration))
+//@ loop 1 invariant len(resp) == $i && forall(j, 0, $i, resp[j].PubKey == distValidators[j].PubKey && sharesSame(distValidators[j].PubShares, resp[j].PubShares) && ddSame(firstDepositDataOrDefault(distValidators[j].PartialDepositData), resp[j].DepositData) && resp[j].BuilderRegistration == registrationToJSON(distValidators[j].BuilderRegistration))
+//@ loop 2 invariant len(shares) == $i2 && forall(k, 0, $i2, shares[k] == dv.PubShares[k])
+
+//@ func distValidatorsFromV1x8OrLater
+//@ props C12
+//@ ensures len(result) == len(distValidators) && forall(i, 0, len(distValidators), result[i].PubKey == distValidators[i].PubKey && sharesSame(result[i].PubShares, distValidators[i].PubShares) && ddArrSame(result[i].PartialDepositData, distValidators[i].PartialDepositData) && result[i].BuilderRegistration == registrationFromJSON(distValidators[i].BuilderRegistration))
+//@ loop 1 invariant len(resp) == $i && forall(j, 0, $i, resp[j].PubKey == distValidators[j].PubKey && sharesSame(resp[j].PubShares, distValidators[j].PubShares) && ddArrSame(resp[j].PartialDepositData, distValidators[j].PartialDepositData) && resp[j].BuilderRegistration == registrationFromJSON(distValidators[j].BuilderRegistration))
+//@ loop 2 invariant len(shares) == $i2 && forall(k, 0, $i2, shares[k] == dv.PubShares[k])
+
+//@ func distValidatorsToV1x8OrLater
+//@ props C12
+//@ ensures len(result) == len(distValidators) && forall(i, 0, len(distValidators), result[i].PubKey == distValidators[i].PubKey && sharesSame(distValidators[i].PubShares, result[i].PubShares) && ddArrSame(distValidators[i].PartialDepositData, result[i].PartialDepositData) && result[i].BuilderRegistration == registrationToJSON(distValidators[i].BuilderRegistration))
+//@ loop 1 invariant len(resp) == $i && forall(j, 0, $i, resp[j].PubKey == distValidators[j].PubKey && sharesSame(distValidators[j].PubShares, resp[j].PubShares) && ddArrSame(distValidators[j].PartialDepositData, resp[j].PartialDepositData) && resp[j].BuilderRegistration == registrationToJSON(distValidators[j].BuilderRegistration))
+//@ loop 2 invariant len(shares) == $i2 && forall(k, 0, $i2, shares[k] == dv.PubShares[k])
+
+// ---- whole-object JSON formatters: what is handed to / taken from encoding/json is the object, field by field ----
+
+//@ func repeatVAddrs
+//@ props C12
+//@ ensures len(result) == ite(n > 0, n, 0) && forall(i, 0, len(result), result[i] == addr)
+//@ loop 1 invariant len(resp) == $i && forall(j, 0, $i, resp[j] == addr)
+
+//@ func marshalDefinitionV1x0or1
+//@ props C12
+//@ callreq json.Marshal: u1.Name == def.Name && u1.UUID == def.UUID && u1.Version == def.Version && u1.Timestamp == def.Timestamp && u1.NumValidators == def.NumValidators && u1.Threshold == def.Threshold && u1.DKGAlgorithm == def.DKGAlgorithm && u1.ConfigHash == def.ConfigHash && u1.DefinitionHash == def.DefinitionHash
+//@ callreq json.Marshal: u1.ForkVersion == to0xHex(def.ForkVersion)
+//@ callreq json.Marshal: len(u1.Operators) == len(def.Operators) && forall(i, 0, len(def.Operators), opSame1(def.Operators[i], u1.Operators[i]))
+//@ callreq json.Marshal: res(1, def.LegacyValidatorAddresses()) == nil && u1.FeeRecipientAddress == res(0, def.LegacyValidatorAddresses()).FeeRecipientAddress && u1.WithdrawalAddress == res(0, def.LegacyValidatorAddresses()).WithdrawalAddress
+//@ ensures r1 == nil ==> ncalls(json.Marshal) == 1
+
+//@ func unmarshalDefinitionV1x0or1
+//@ props C12
+//@ callreq json.Unmarshal: a1 == data && ncalls(json.Unmarshal) == 0
+//@ ensures err == nil ==> def.Name == defJSON.Name && def.UUID == defJSON.UUID && def.Version == defJSON.Version && def.Timestamp == defJSON.Timestamp && def.NumValidators == defJSON.NumValidators && def.Threshold == defJSON.Threshold && def.DKGAlgorithm == defJSON.DKGAlgorithm && def.ConfigHash == defJSON.ConfigHash && def.DefinitionHash == defJSON.DefinitionHash
+//@ ensures err == nil ==> res(1, from0xHex(defJSON.ForkVersion, forkVersionLen)) == nil && def.ForkVersion == res(0, from0xHex(defJSON.ForkVersion, forkVersionLen))
+//@ ensures err == nil ==> len(def.Operators) == len(defJSON.Operators) && forall(i, 0, len(def.Operators), opSame1(def.Operators[i], defJSON.Operators[i]))
+//@ ensures err == nil ==> len(def.ValidatorAddresses) == ite(defJSON.NumValidators > 0, defJSON.NumValidators, 0) && forall(i, 0, len(def.ValidatorAddresses), def.ValidatorAddresses[i].FeeRecipientAddress == defJSON.FeeRecipientAddress && def.ValidatorAddresses[i].WithdrawalAddress == defJSON.WithdrawalAddress)
+//@ ensures err == nil ==> ncalls(json.Unmarshal) == 1
+//@ canary err != nil
+//@ canary err == nil
+
+//@ func marshalDefinitionV1x2or3
+//@ props C12
+//@ callreq json.Marshal: u1.Name == def.Name && u1.UUID == def.UUID && u1.Version == def.Version && u1.Timestamp == def.Timestamp && u1.NumValidators == def.NumValidators && u1.Threshold == def.Threshold && u1.DKGAlgorithm == def.DKGAlgorithm && u1.ConfigHash == def.ConfigHash && u1.DefinitionHash == def.DefinitionHash && u1.ForkVersion == def.ForkVersion
+//@ callreq json.Marshal: len(u1.Operators) == len(def.Operators) && forall(i, 0, len(def.Operators), opSame2(def.Operators[i], u1.Operators[i]))
+//@ callreq json.Marshal: res(1, def.LegacyValidatorAddresses()) == nil && u1.FeeRecipientAddress == res(0, def.LegacyValidatorAddresses()).FeeRecipientAddress && u1.WithdrawalAddress == res(0, def.LegacyValidatorAddresses()).WithdrawalAddress
+//@ ensures r1 == nil ==> ncalls(json.Marshal) == 1
+
+//@ func unmarshalDefinitionV1x2or3
+//@ props C12
+//@ callreq json.Unmarshal: a1 == data && ncalls(json.Unmarshal) == 0
+//@ ensures err == nil ==> def.Name == defJSON.Name && def.UUID == defJSON.UUID && def.Version == defJSON.Version && def.Timestamp == defJSON.Timestamp && def.NumValidators == defJSON.NumValidators && def.Threshold == defJSON.Threshold && def.DKGAlgorithm == defJSON.DKGAlgorithm && def.ConfigHash == defJSON.ConfigHash && def.DefinitionHash == defJSON.DefinitionHash && def.ForkVersion == defJSON.ForkVersion
+//@ ensures err == nil ==> len(def.Operators) == len(defJSON.Operators) && forall(i, 0, len(def.Operators), opSame2(def.Operators[i], defJSON.Operators[i]))
+//@ ensures err == nil ==> len(def.ValidatorAddresses) == ite(defJSON.NumValidators > 0, defJSON.NumValidators, 0) && forall(i, 0, len(def.ValidatorAddresses), def.ValidatorAddresses[i].FeeRecipientAddress == defJSON.FeeRecipientAddress && def.ValidatorAddresses[i].WithdrawalAddress == defJSON.WithdrawalAddress)
+//@ ensures err == nil ==> ncalls(json.Unmarshal) == 1
+//@ canary err != nil
+//@ canary err == nil
+
+//@ func marshalDefinitionV1x4
+//@ props C12
+//@ callreq json.Marshal: u1.Name == def.Name && u1.UUID == def.UUID && u1.Version == def.Version && u1.Timestamp == def.Timestamp && u1.NumValidators == def.NumValidators && u1.Threshold == def.Threshold && u1.DKGAlgorithm == def.DKGAlgorithm && u1.ConfigHash == def.ConfigHash && u1.DefinitionHash == def.DefinitionHash && u1.ForkVersion == def.ForkVersion
+//@ callreq json.Marshal: u1.Creator.Address == def.Creator.Address && u1.Creator.ConfigSignature == def.Creator.ConfigSignature
+//@ callreq json.Marshal: len(u1.Operators) == len(def.Operators) && forall(i, 0, len(def.Operators), opSame2(def.Operators[i], u1.Operators[i]))
+//@ callreq json.Marshal: res(1, def.LegacyValidatorAddresses()) == nil && u1.FeeRecipientAddress == res(0, def.LegacyValidatorAddresses()).FeeRecipientAddress && u1.WithdrawalAddress == res(0, def.LegacyValidatorAddresses()).WithdrawalAddress
+//@ ensures r1 == nil ==> ncalls(json.Marshal) == 1
+
+//@ func unmarshalDefinitionV1x4
+//@ props C12
+//@ callreq json.Unmarshal: a1 == data && ncalls(json.Unmarshal) == 0
+//@ ensures err == nil ==> def.Name == defJSON.Name && def.UUID == defJSON.UUID && def.Version == defJSON.Version && def.Timestamp == defJSON.Timestamp && def.NumValidators == defJSON.NumValidators && def.Threshold == defJSON.Threshold && def.DKGAlgorithm == defJSON.DKGAlgorithm && def.ConfigHash == defJSON.ConfigHash && def.DefinitionHash == defJSON.DefinitionHash && def.ForkVersion == defJSON.ForkVersion
+//@ ensures err == nil ==> def.Creator.Address == defJSON.Creator.Address && def.Creator.ConfigSignature == defJSON.Creator.ConfigSignature
+//@ ensures err == nil ==> len(def.Operators) == len(defJSON.Operators) && forall(i, 0, len(def.Operators), opSame2(def.Operators[i], defJSON.Operators[i]))
+//@ ensures err == nil ==> len(def.ValidatorAddresses) == ite(defJSON.NumValidators > 0, defJSON.NumValidators, 0) && forall(i, 0, len(def.ValidatorAddresses), def.ValidatorAddresses[i].FeeRecipientAddress == defJSON.FeeRecipientAddress && def.ValidatorAddresses[i].WithdrawalAddress == defJSON.WithdrawalAddress)
+//@ ensures err == nil ==> ncalls(json.Unmarshal) == 1
+//@ canary err != nil
+//@ canary err == nil
+
+//@ func marshalDefinitionV1x5to7
+//@ props C12
+//@ callreq json.Marshal: u1.Name == def.Name && u1.UUID == def.UUID && u1.Version == def.Version && u1.Timestamp == def.Timestamp && u1.NumValidators == def.NumValidators && u1.Threshold == def.Threshold && u1.DKGAlgorithm == def.DKGAlgorithm && u1.ConfigHash == def.ConfigHash && u1.DefinitionHash == def.DefinitionHash && u1.ForkVersion == def.ForkVersion
+//@ callreq json.Marshal: u1.Creator.Address == def.Creator.Address && u1.Creator.ConfigSignature == def.Creator.ConfigSignature
+//@ callreq json.Marshal: len(u1.Operators) == len(def.Operators) && forall(i, 0, len(def.Operators), opSame2(def.Operators[i], u1.Operators[i]))
+//@ callreq json.Marshal: len(u1.ValidatorAddresses) == len(def.ValidatorAddresses) && forall(i, 0, len(def.ValidatorAddresses), u1.ValidatorAddresses[i].FeeRecipientAddress == def.ValidatorAddresses[i].FeeRecipientAddress && u1.ValidatorAddresses[i].WithdrawalAddress == def.ValidatorAddresses[i].WithdrawalAddress)
+//@ ensures r1 == nil ==> ncalls(json.Marshal) == 1
+
+//@ func unmarshalDefinitionV1x5to7
+//@ props C12
+//@ callreq json.Unmarshal: a1 == data && ncalls(json.Unmarshal) == 0
+//@ ensures err == nil ==> def.Name == defJSON.Name && def.UUID == defJSON.UUID && def.Version == defJSON.Version && def.Timestamp == defJSON.Timestamp && def.NumValidators == defJSON.NumValidators && def.Threshold == defJSON.Threshold && def.DKGAlgorithm == defJSON.DKGAlgorithm && def.ConfigHash == defJSON.ConfigHash && def.DefinitionHash == defJSON.DefinitionHash && def.ForkVersion == defJSON.ForkVersion
+//@ ensures err == nil ==> def.Creator.Address == defJSON.Creator.Address && def.Creator.ConfigSignature == defJSON.Creator.ConfigSignature
+//@ ensures err == nil ==> len(def.Operators) == len(defJSON.Operators) && forall(i, 0, len(def.Operators), opSame2(def.Operators[i], defJSON.Operators[i]))
+//@ ensures err == nil ==> len(def.ValidatorAddresses) == len(defJSON.ValidatorAddresses) && len(def.ValidatorAddresses) == def.NumValidators && forall(i, 0, len(def.ValidatorAddresses), def.ValidatorAddresses[i].FeeRecipientAddress == defJSON.ValidatorAddresses[i].FeeRecipientAddress && def.ValidatorAddresses[i].WithdrawalAddress == defJSON.ValidatorAddresses[i].WithdrawalAddress)
+//@ ensures err == nil ==> ncalls(json.Unmarshal) == 1
+//@ canary err != nil
+//@ canary err == nil
+
+//@ func marshalDefinitionV1x8
+//@ props C12
+//@ callreq json.Marshal: u1.Name == def.Name && u1.UUID == def.UUID && u1.Version == def.Version && u1.Timestamp == def.Timestamp && u1.NumValidators == def.NumValidators && u1.Threshold == def.Threshold && u1.DKGAlgorithm == def.DKGAlgorithm && u1.ConfigHash == def.ConfigHash && u1.DefinitionHash == def.DefinitionHash && u1.DepositAmounts == def.DepositAmounts && u1.ForkVersion == def.ForkVersion
+//@ callreq json.Marshal: u1.Creator.Address == def.Creator.Address && u1.Creator.ConfigSignature == def.Creator.ConfigSignature
+//@ callreq json.Marshal: len(u1.Operators) == len(def.Operators) && forall(i, 0, len(def.Operators), opSame2(def.Operators[i], u1.Operators[i]))
+//@ callreq json.Marshal: len(u1.ValidatorAddresses) == len(def.ValidatorAddresses) && forall(i, 0, len(def.ValidatorAddresses), u1.ValidatorAddresses[i].FeeRecipientAddress == def.ValidatorAddresses[i].FeeRecipientAddress && u1.ValidatorAddresses[i].WithdrawalAddress == def.ValidatorAddresses[i].WithdrawalAddress)
+//@ ensures r1 == nil ==> ncalls(json.Marshal) == 1
+
+//@ func unmarshalDefinitionV1x8
+//@ props C12
+//@ callreq json.Unmarshal: a1 == data && ncalls(json.Unmarshal) == 0
+//@ ensures err == nil ==> def.Name == defJSON.Name && def.UUID == defJSON.UUID && def.Version == defJSON.Version && def.Timestamp == defJSON.Timestamp && def.NumValidators == defJSON.NumValidators && def.Threshold == defJSON.Threshold && def.DKGAlgorithm == defJSON.DKGAlgorithm && def.ConfigHash == defJSON.ConfigHash && def.DefinitionHash == defJSON.DefinitionHash && def.DepositAmounts == defJSON.DepositAmounts && def.ForkVersion == defJSON.ForkVersion
+//@ ensures err == nil ==> def.Creator.Address == defJSON.Creator.Address && def.Creator.ConfigSignature == defJSON.Creator.ConfigSignature
+//@ ensures err == nil ==> len(def.Operators) == len(defJSON.Operators) && forall(i, 0, len(def.Operators), opSame2(def.Operators[i], defJSON.Operators[i]))
+//@ ensures err == nil ==> len(def.ValidatorAddresses) == len(defJSON.ValidatorAddresses) && len(def.ValidatorAddresses) == def.NumValidators && forall(i, 0, len(def.ValidatorAddresses), def.ValidatorAddresses[i].FeeRecipientAddress == defJSON.ValidatorAddresses[i].FeeRecipientAddress && def.ValidatorAddresses[i].WithdrawalAddress == defJSON.ValidatorAddresses[i].WithdrawalAddress)
+//@ ensures err == nil ==> ncalls(json.Unmarshal) == 1
+//@ canary err != nil
+//@ canary err == nil
+
+//@ func marshalDefinitionV1x9
+//@ props C12
+//@ callreq json.Marshal: u1.Name == def.Name && u1.UUID == def.UUID && u1.Version == def.Version && u1.Timestamp == def.Timestamp && u1.NumValidators == def.NumValidators && u1.Threshold == def.Threshold && u1.DKGAlgorithm == def.DKGAlgorithm && u1.ConfigHash == def.ConfigHash && u1.DefinitionHash == def.DefinitionHash && u1.DepositAmounts == def.DepositAmounts && u1.ConsensusProtocol == def.ConsensusProtocol && u1.ForkVersion == def.ForkVersion
+//@ callreq json.Marshal: u1.Creator.Address == def.Creator.Address && u1.Creator.ConfigSignature == def.Creator.ConfigSignature
+//@ callreq json.Marshal: len(u1.Operators) == len(def.Operators) && forall(i, 0, len(def.Operators), opSame2(def.Operators[i], u1.Operators[i]))
+//@ callreq json.Marshal: len(u1.ValidatorAddresses) == len(def.ValidatorAddresses) && forall(i, 0, len(def.ValidatorAddresses), u1.ValidatorAddresses[i].FeeRecipientAddress == def.ValidatorAddresses[i].FeeRecipientAddress && u1.ValidatorAddresses[i].WithdrawalAddress == def.ValidatorAddresses[i].WithdrawalAddress)
+//@ ensures r1 == nil ==> ncalls(json.Marshal) == 1
+
+//@ func unmarshalDefinitionV1x9
+//@ props C12
+//@ callreq json.Unmarshal: a1 == data && ncalls(json.Unmarshal) == 0
+//@ ensures err == nil ==> def.Name == defJSON.Name && def.UUID == defJSON.UUID && def.Version == defJSON.Version && def.Timestamp == defJSON.Timestamp && def.NumValidators == defJSON.NumValidators && def.Threshold == defJSON.Threshold && def.DKGAlgorithm == defJSON.DKGAlgorithm && def.ConfigHash == defJSON.ConfigHash && def.DefinitionHash == defJSON.DefinitionHash && def.DepositAmounts == defJSON.DepositAmounts && def.ConsensusProtocol == defJSON.ConsensusProtocol && def.ForkVersion == defJSON.ForkVersion
+//@ ensures err == nil ==> def.Creator.Address == defJSON.Creator.Address && def.Creator.ConfigSignature == defJSON.Creator.ConfigSignature
+//@ ensures err == nil ==> len(def.Operators) == len(defJSON.Operators) && forall(i, 0, len(def.Operators), opSame2(def.Operators[i], defJSON.Operators[i]))
+//@ ensures err == nil ==> len(def.ValidatorAddresses) == len(defJSON.ValidatorAddresses) && len(def.ValidatorAddresses) == def.NumValidators && forall(i, 0, len(def.ValidatorAddresses), def.ValidatorAddresses[i].FeeRecipientAddress == defJSON.ValidatorAddresses[i].FeeRecipientAddress && def.ValidatorAddresses[i].WithdrawalAddress == defJSON.ValidatorAddresses[i].WithdrawalAddress)
+//@ ensures err == nil ==> ncalls(json.Unmarshal) == 1
+//@ canary err != nil
+//@ canary err == nil
+
+//@ func marshalDefinitionV1x10to11
+//@ props C12
+//@ callreq json.Marshal: u1.Name == def.Name && u1.UUID == def.UUID && u1.Version == def.Version && u1.Timestamp == def.Timestamp && u1.NumValidators == def.NumValidators && u1.Threshold == def.Threshold && u1.DKGAlgorithm == def.DKGAlgorithm && u1.ConfigHash == def.ConfigHash && u1.DefinitionHash == def.DefinitionHash && u1.DepositAmounts == def.DepositAmounts && u1.ConsensusProtocol == def.ConsensusProtocol && u1.TargetGasLimit == def.TargetGasLimit && u1.Compounding == def.Compounding && u1.ForkVersion == def.ForkVersion
+//@ callreq json.Marshal: u1.Creator.Address == def.Creator.Address && u1.Creator.ConfigSignature == def.Creator.ConfigSignature
+//@ callreq json.Marshal: len(u1.Operators) == len(def.Operators) && forall(i, 0, len(def.Operators), opSame2(def.Operators[i], u1.Operators[i]))
+//@ callreq json.Marshal: len(u1.ValidatorAddresses) == len(def.ValidatorAddresses) && forall(i, 0, len(def.ValidatorAddresses), u1.ValidatorAddresses[i].FeeRecipientAddress == def.ValidatorAddresses[i].FeeRecipientAddress && u1.ValidatorAddresses[i].WithdrawalAddress == def.ValidatorAddresses[i].WithdrawalAddress)
+//@ ensures r1 == nil ==> ncalls(json.Marshal) == 1
+
+//@ func unmarshalDefinitionV1x10to11
+//@ props C12
+//@ callreq json.Unmarshal: a1 == data && ncalls(json.Unmarshal) == 0
+//@ ensures err == nil ==> def.Name == defJSON.Name && def.UUID == defJSON.UUID && def.Version == defJSON.Version && def.Timestamp == defJSON.Timestamp && def.NumValidators == defJSON.NumValidators && def.Threshold == defJSON.Threshold && def.DKGAlgorithm == defJSON.DKGAlgorithm && def.ConfigHash == defJSON.ConfigHash && def.DefinitionHash == defJSON.DefinitionHash && def.DepositAmounts == defJSON.DepositAmounts && def.ConsensusProtocol == defJSON.ConsensusProtocol && def.TargetGasLimit == defJSON.TargetGasLimit && def.Compounding == defJSON.Compounding && def.ForkVersion == defJSON.ForkVersion
+//@ ensures err == nil ==> def.Creator.Address == defJSON.Creator.Address && def.Creator.ConfigSignature == defJSON.Creator.ConfigSignature
+//@ ensures err == nil ==> len(def.Operators) == len(defJSON.Operators) && forall(i, 0, len(def.Operators), opSame2(def.Operators[i], defJSON.Operators[i]))
+//@ ensures err == nil ==> len(def.ValidatorAddresses) == len(defJSON.ValidatorAddresses) && len(def.ValidatorAddresses) == def.NumValidators && forall(i, 0, len(def.ValidatorAddresses), def.ValidatorAddresses[i].FeeRecipientAddress == defJSON.ValidatorAddresses[i].FeeRecipientAddress && def.ValidatorAddresses[i].WithdrawalAddress == defJSON.ValidatorAddresses[i].WithdrawalAddress)
+//@ ensures err == nil ==> ncalls(json.Unmarshal) == 1
+//@ canary err != nil
+//@ canary err == nil
+
+//@ spec func dv1(d DistValidator, j distValidatorJSONv1x1) bool = d.PubKey == j.PubKey && d.PubShares == j.PubShares
+//@ spec func dv2(d DistValidator, j distValidatorJSONv1x2to5) bool = d.PubKey == j.PubKey && sharesSame(d.PubShares, j.PubShares)
+//@ spec func dv6From(d DistValidator, j distValidatorJSONv1x6) bool = d.PubKey == j.PubKey && sharesSame(d.PubShares, j.PubShares) && len(d.PartialDepositData) == 1 && ddSame(d.PartialDepositData[0], j.DepositData)
+//@ spec func dv6To(d DistValidator, j distValidatorJSONv1x6) bool = d.PubKey == j.PubKey && sharesSame(d.PubShares, j.PubShares) && ddSame(firstDepositDataOrDefault(d.PartialDepositData), j.DepositData)
+//@ spec func dv7From(d DistValidator, j distValidatorJSONv1x7) bool = d.PubKey == j.PubKey && sharesSame(d.PubShares, j.PubShares) && len(d.PartialDepositData) == 1 && ddSame(d.PartialDepositData[0], j.DepositData) && d.BuilderRegistration == registrationFromJSON(j.BuilderRegistration)
+//@ spec func dv7To(d DistValidator, j distValidatorJSONv1x7) bool = d.PubKey == j.PubKey && sharesSame(d.PubShares, j.PubShares) && ddSame(firstDepositDataOrDefault(d.PartialDepositData), j.DepositData) && j.BuilderRegistration == registrationToJSON(d.BuilderRegistration)
+//@ spec func dv8From(d DistValidator, j distValidatorJSONv1x8) bool = d.PubKey == j.PubKey && sharesSame(d.PubShares, j.PubShares) && ddArrSame(d.PartialDepositData, j.PartialDepositData) && d.BuilderRegistration == registrationFromJSON(j.BuilderRegistration)
+//@ spec func dv8To(d DistValidator, j distValidatorJSONv1x8) bool = d.PubKey == j.PubKey && sharesSame(d.PubShares, j.PubShares) && ddArrSame(d.PartialDepositData, j.PartialDepositData) && j.BuilderRegistration == registrationToJSON(d.BuilderRegistration)
+
+// The lock hash written to the file is the one recomputed by the caller from the lock, not the stored field.
+//@ func marshalLockV1x0or1
+//@ props C12
+//@ callreq json.Marshal: u1.Definition == lock.Definition && u1.SignatureAggregate == lock.SignatureAggregate && u1.LockHash == lockHash[:]
+//@ callreq json.Marshal: len(u1.Validators) == len(lock.Validators) && forall(i, 0, len(lock.Validators), dv1(lock.Validators[i], u1.Validators[i]))
+//@ ensures r1 == nil ==> ncalls(json.Marshal) == 1
+
+//@ func marshalLockV1x2to5
+//@ props C12
+//@ callreq json.Marshal: u1.Definition == lock.Definition && u1.SignatureAggregate == lock.SignatureAggregate && u1.LockHash == lockHash[:]
+//@ callreq json.Marshal: len(u1.Validators) == len(lock.Validators) && forall(i, 0, len(lock.Validators), dv2(lock.Validators[i], u1.Validators[i]))
+//@ ensures r1 == nil ==> ncalls(json.Marshal) == 1
+
+//@ func marshalLockV1x6
+//@ props C12
+//@ callreq json.Marshal: u1.Definition == lock.Definition && u1.SignatureAggregate == lock.SignatureAggregate && u1.LockHash == lockHash[:]
+//@ callreq json.Marshal: len(u1.Validators) == len(lock.Validators) && forall(i, 0, len(lock.Validators), dv6To(lock.Validators[i], u1.Validators[i]))
+//@ ensures r1 == nil ==> ncalls(json.Marshal) == 1
+
+//@ func marshalLockV1x7
+//@ props C12
+//@ callreq json.Marshal: u1.Definition == lock.Definition && u1.SignatureAggregate == lock.SignatureAggregate && u1.LockHash == lockHash[:] && sharesSame(lock.NodeSignatures, u1.NodeSignatures)
+//@ callreq json.Marshal: len(u1.Validators) == len(lock.Validators) && forall(i, 0, len(lock.Validators), dv7To(lock.Validators[i], u1.Validators[i]))
+//@ ensures r1 == nil ==> ncalls(json.Marshal) == 1
+
+//@ func marshalLockV1x8OrLater
+//@ props C12
+//@ callreq json.Marshal: u1.Definition == lock.Definition && u1.SignatureAggregate == lock.SignatureAggregate && u1.LockHash == lockHash[:] && sharesSame(lock.NodeSignatures, u1.NodeSignatures)
+//@ callreq json.Marshal: len(u1.Validators) == len(lock.Validators) && forall(i, 0, len(lock.Validators), dv8To(lock.Validators[i], u1.Validators[i]))
+//@ ensures r1 == nil ==> ncalls(json.Marshal) == 1
+
+//@ func unmarshalLockV1x0or1
+//@ props C12
+//@ callreq json.Unmarshal: a1 == data && ncalls(json.Unmarshal) == 0
+//@ ensures err == nil ==> lock.Definition == lockJSON.Definition && lock.SignatureAggregate == lockJSON.SignatureAggregate && lock.LockHash == lockJSON.LockHash && len(lock.NodeSignatures) == 0
+//@ ensures err == nil ==> len(lock.Validators) == len(lockJSON.Validators) && forall(i, 0, len(lock.Validators), dv1(lock.Validators[i], lockJSON.Validators[i]) && len(lockJSON.Validators[i].FeeRecipientAddress) == 0)
+//@ ensures err == nil ==> ncalls(json.Unmarshal) == 1
+//@ loop 1 invariant forall(j, 0, $i, len(lockJSON.Validators[j].FeeRecipientAddress) == 0)
+//@ canary err != nil
+//@ canary err == nil
+
+//@ func unmarshalLockV1x2to5
+//@ props C12
+//@ callreq json.Unmarshal: a1 == data && ncalls(json.Unmarshal) == 0
+//@ ensures err == nil ==> lock.Definition == lockJSON.Definition && lock.SignatureAggregate == lockJSON.SignatureAggregate && lock.LockHash == lockJSON.LockHash && len(lock.NodeSignatures) == 0
+//@ ensures err == nil ==> len(lock.Validators) == len(lockJSON.Validators) && forall(i, 0, len(lock.Validators), dv2(lock.Validators[i], lockJSON.Validators[i]) && len(lockJSON.Validators[i].FeeRecipientAddress) == 0)
+//@ ensures err == nil ==> ncalls(json.Unmarshal) == 1
+//@ loop 1 invariant forall(j, 0, $i, len(lockJSON.Validators[j].FeeRecipientAddress) == 0)
+//@ canary err != nil
+//@ canary err == nil
+
+//@ func unmarshalLockV1x6
+//@ props C12
+//@ callreq json.Unmarshal: a1 == data && ncalls(json.Unmarshal) == 0
+//@ ensures err == nil ==> lock.Definition == lockJSON.Definition && lock.SignatureAggregate == lockJSON.SignatureAggregate && lock.LockHash == lockJSON.LockHash && len(lock.NodeSignatures) == 0
+//@ ensures err == nil ==> len(lock.Validators) == len(lockJSON.Validators) && forall(i, 0, len(lock.Validators), dv6From(lock.Validators[i], lockJSON.Validators[i]))
+//@ ensures err == nil ==> ncalls(json.Unmarshal) == 1
+//@ canary err != nil
+//@ canary err == nil
+
+//@ func unmarshalLockV1x7
+//@ props C12
+//@ callreq json.Unmarshal: a1 == data && ncalls(json.Unmarshal) == 0
+//@ ensures err == nil ==> lock.Definition == lockJSON.Definition && lock.SignatureAggregate == lockJSON.SignatureAggregate && lock.LockHash == lockJSON.LockHash && sharesSame(lock.NodeSignatures, lockJSON.NodeSignatures)
+//@ ensures err == nil ==> len(lock.Validators) == len(lockJSON.Validators) && forall(i, 0, len(lock.Validators), dv7From(lock.Validators[i], lockJSON.Validators[i]))
+//@ ensures err == nil ==> ncalls(json.Unmarshal) == 1
+//@ loop 1 invariant len(nodeSignatures) == $i && forall(k, 0, $i, nodeSignatures[k] == lockJSON.NodeSignatures[k])
+//@ canary err != nil
+//@ canary err == nil
+
+//@ func unmarshalLockV1x8OrLater
+//@ props C12
+//@ callreq json.Unmarshal: a1 == data && ncalls(json.Unmarshal) == 0
+//@ ensures err == nil ==> lock.Definition == lockJSON.Definition && lock.SignatureAggregate == lockJSON.SignatureAggregate && lock.LockHash == lockJSON.LockHash && sharesSame(lock.NodeSignatures, lockJSON.NodeSignatures)
+//@ ensures err == nil ==> len(lock.Validators) == len(lockJSON.Validators) && forall(i, 0, len(lock.Validators), dv8From(lock.Validators[i], lockJSON.Validators[i]))
+//@ ensures err == nil ==> ncalls(json.Unmarshal) == 1
+//@ loop 1 invariant len(nodeSignatures) == $i && forall(k, 0, $i, nodeSignatures[k] == lockJSON.NodeSignatures[k])
+//@ canary err != nil
+//@ canary err == nil
+
+// ---- version dispatch of the JSON formatters: each format version is written and read by its own formatter ----
+
+//@ func (d Definition) MarshalJSON
+//@ props C12
+//@ callreq marshalDefinitionV1x0or1: a1 == d2 && (a1.Version == v1_0 || a1.Version == v1_1)
+//@ callreq marshalDefinitionV1x2or3: a1 == d2 && (a1.Version == v1_2 || a1.Version == v1_3)
+//@ callreq marshalDefinitionV1x4: a1 == d2 && a1.Version == v1_4
+//@ callreq marshalDefinitionV1x5to7: a1 == d2 && (a1.Version == v1_5 || a1.Version == v1_6 || a1.Version == v1_7)
+//@ callreq marshalDefinitionV1x8: a1 == d2 && a1.Version == v1_8
+//@ callreq marshalDefinitionV1x9: a1 == d2 && a1.Version == v1_9
+//@ callreq marshalDefinitionV1x10to11: a1 == d2 && (a1.Version == v1_10 || a1.Version == v1_11)
+//@ callreq d.SetDefinitionHashes: ncalls(d.SetDefinitionHashes) == 0
+//@ ensures r1 == nil ==> ncalls(d.SetDefinitionHashes) == 1 && ncalls(marshalDefinitionV1x0or1) + ncalls(marshalDefinitionV1x2or3) + ncalls(marshalDefinitionV1x4) + ncalls(marshalDefinitionV1x5to7) + ncalls(marshalDefinitionV1x8) + ncalls(marshalDefinitionV1x9) + ncalls(marshalDefinitionV1x10to11) == 1
+//@ canary r1 != nil
+//@ canary r1 == nil
+
+//@ func (d *Definition) UnmarshalJSON
+//@ props C12
+//@ callreq unmarshalDefinitionV1x0or1: a1 == data && (version.Version == v1_0 || version.Version == v1_1)
+//@ callreq unmarshalDefinitionV1x2or3: a1 == data && (version.Version == v1_2 || version.Version == v1_3)
+//@ callreq unmarshalDefinitionV1x4: a1 == data && version.Version == v1_4
+//@ callreq unmarshalDefinitionV1x5to7: a1 == data && (version.Version == v1_5 || version.Version == v1_6 || version.Version == v1_7)
+//@ callreq unmarshalDefinitionV1x8: a1 == data && version.Version == v1_8
+//@ callreq unmarshalDefinitionV1x9: a1 == data && version.Version == v1_9
+//@ callreq unmarshalDefinitionV1x10to11: a1 == data && (version.Version == v1_10 || version.Version == v1_11)
+//@ ensures result == nil ==> ncalls(unmarshalDefinitionV1x0or1) + ncalls(unmarshalDefinitionV1x2or3) + ncalls(unmarshalDefinitionV1x4) + ncalls(unmarshalDefinitionV1x5to7) + ncalls(unmarshalDefinitionV1x8) + ncalls(unmarshalDefinitionV1x9) + ncalls(unmarshalDefinitionV1x10to11) == 1
+//@ ensures result == nil ==> *d == def
+//@ canary result != nil
+//@ canary result == nil
+
+//@ func (l Lock) MarshalJSON
+//@ props C12
+//@ callreq marshalLockV1x0or1: a1 == l && a2 == lockHash && (l.Version == v1_0 || l.Version == v1_1)
+//@ callreq marshalLockV1x2to5: a1 == l && a2 == lockHash && (l.Version == v1_2 || l.Version == v1_3 || l.Version == v1_4 || l.Version == v1_5)
+//@ callreq marshalLockV1x6: a1 == l && a2 == lockHash && l.Version == v1_6
+//@ callreq marshalLockV1x7: a1 == l && a2 == lockHash && l.Version == v1_7
+//@ callreq marshalLockV1x8OrLater: a1 == l && a2 == lockHash && (l.Version == v1_8 || l.Version == v1_9 || l.Version == v1_10 || l.Version == v1_11)
+//@ callreq hashLock: a1 == l
+//@ ensures r1 == nil ==> ncalls(hashLock) == 1 && ncalls(marshalLockV1x0or1) + ncalls(marshalLockV1x2to5) + ncalls(marshalLockV1x6) + ncalls(marshalLockV1x7) + ncalls(marshalLockV1x8OrLater) == 1
+//@ canary r1 != nil
+//@ canary r1 == nil
+
+//@ func (l *Lock) UnmarshalJSON
+//@ props C12
+//@ callreq unmarshalLockV1x0or1: a1 == data && (version.Definition.Version == v1_0 || version.Definition.Version == v1_1)
+//@ callreq unmarshalLockV1x2to5: a1 == data && (version.Definition.Version == v1_2 || version.Definition.Version == v1_3 || version.Definition.Version == v1_4 || version.Definition.Version == v1_5)
+//@ callreq unmarshalLockV1x6: a1 == data && version.Definition.Version == v1_6
+//@ callreq unmarshalLockV1x7: a1 == data && version.Definition.Version == v1_7
+//@ callreq unmarshalLockV1x8OrLater: a1 == data && (version.Definition.Version == v1_8 || version.Definition.Version == v1_9 || version.Definition.Version == v1_10 || version.Definition.Version == v1_11)
+//@ ensures result == nil ==> ncalls(unmarshalLockV1x0or1) + ncalls(unmarshalLockV1x2to5) + ncalls(unmarshalLockV1x6) + ncalls(unmarshalLockV1x7) + ncalls(unmarshalLockV1x8OrLater) == 1
+//@ ensures result == nil ==> *l == lock
+//@ canary result != nil
+//@ canary result == nil
